@@ -97,6 +97,10 @@ static uint64_t gfs_flushed;       /* bytes of the stream for which write() retu
 static int gfs_stream_open;        /* fd 3 open on which file id (-1 none) */
 static int gfs_stream_file = -1;
 static int gfs_removed_complete_only_copy; /* C10 ghost flag */
+static int gfs_jfd_open, gfs_jfd_file;     /* fd 4: a metadata file written through a descriptor */
+static uint64_t gfs_jfd_off;
+static int gfs_ser_finished;       /* `finished` flag of the last serialisation */
+#define GFS_JSON_LEN 32u           /* length of one serialised metadata document (content-free) */
 
 static const struct gfs_inputs *gfs_in(void);   /* provided by the harness: &IN.fs */
 static void gfs_crash_invariant(void);           /* provided by the harness */
@@ -268,18 +272,48 @@ static int v_open(const char *path, int flags, mode_t mode)
 {
 	(void) mode;
 	int f = gfs_file_id(path);
-	V_ASSERT(f == F_OBS || f == T_OBS, "env: open() on something that is not a stream.obs");
-	V_ASSERT((flags & O_CREAT) && (flags & O_WRONLY), "env: stream opened for writing with O_CREAT");
+	V_ASSERT(f >= 0, "env: open() on a path outside the modelled namespace");
+	V_ASSERT((flags & O_CREAT) && (flags & O_WRONLY), "env: file opened for writing with O_CREAT");
 	if (gfs_syscall()) { errno = GFS_FAULT_ERRNO(EACCES); return -1; }
 	if (!gfs_dir[gfs_dir_of_file(f)]) { errno = ENOENT; return -1; }
+	if (f == F_JSON || f == T_JSON) {
+		/* a metadata document written through a descriptor (fd 4) */
+		V_ASSERT(!gfs_jfd_open, "env: one metadata descriptor at a time");
+		gfs_f[f].exists = 1;
+		if (flags & O_TRUNC) { gfs_f[f].len = 0; gfs_f[f].complete = 0; gfs_f[f].finished = 0; gfs_f[f].total = 0; }
+		gfs_jfd_open = 1; gfs_jfd_file = f; gfs_jfd_off = 0;
+		return 4;
+	}
 	gfs_f[f].exists = 1;          /* no O_TRUNC in the code: length kept (0 for a new file) */
 	gfs_stream_file = f;
 	gfs_stream_open = 1;
 	return 3;
 }
+static ssize_t v_write_meta(size_t n)
+{
+	struct gfs_file *f = &gfs_f[gfs_jfd_file];
+	size_t r = n;
+	if (gfs_syscall()) {
+		if (!(GFS_FAULT_SHORT() && n > 1)) { errno = GFS_FAULT_ERRNO(ENOSPC); return -1; }
+		r = (GFS_SHORTLEN() >= 1 && GFS_SHORTLEN() < n) ? GFS_SHORTLEN() : 1;   /* the kernel reports how much fitted */
+	}
+	gfs_jfd_off += r;
+	if (gfs_jfd_off > f->len) f->len = gfs_jfd_off;
+	/* the document is the last serialisation (GFS_JSON_LEN bytes): complete iff all of it arrived from offset 0 */
+	f->total = GFS_JSON_LEN; f->finished = gfs_ser_finished;
+	f->complete = (f->len == GFS_JSON_LEN && gfs_jfd_off == GFS_JSON_LEN);
+	return (ssize_t) r;
+}
+static int v_fsync(int fd)
+{
+	V_ASSERT((fd == 3 && gfs_stream_open) || (fd == 4 && gfs_jfd_open), "env: fsync() on an open descriptor");
+	if (gfs_syscall()) { errno = GFS_FAULT_ERRNO(EIO); return -1; }
+	return 0;
+}
 static ssize_t v_write(int fd, const void *buf, size_t n)
 {
 	(void) buf;
+	if (fd == 4 && gfs_jfd_open) return v_write_meta(n);
 	V_ASSERT(fd == 3 && gfs_stream_open, "env: write() on the open stream fd");
 	if (gfs_syscall()) {
 		if (GFS_FAULT_SHORT() && n > 1) {
@@ -310,6 +344,12 @@ static ssize_t v_write(int fd, const void *buf, size_t n)
 }
 static int v_close(int fd)
 {
+	if (fd == 4 && gfs_jfd_open) {
+		int failj = gfs_syscall();
+		gfs_jfd_open = 0;
+		if (failj) { errno = GFS_FAULT_ERRNO(EIO); return -1; }
+		return 0;
+	}
 	V_ASSERT(fd == 3 && gfs_stream_open, "env: close() of the stream fd");
 	int fail = gfs_syscall();
 	gfs_stream_open = 0;            /* POSIX: the descriptor is released even on error */
@@ -325,8 +365,6 @@ static int v_close(int fd)
 #endif
 struct gfs_stream { int used; int file; int writing; uint64_t pos; uint64_t buffered; int err; int finished; uint64_t total; int copying; int copy_src; };
 static struct gfs_stream gfs_s[3];
-static int gfs_ser_finished;       /* `finished` flag of the last serialisation */
-#define GFS_JSON_LEN 96u           /* length of one serialised metadata document (content-free) */
 
 static struct gfs_stream *gfs_stream_of(FILE *fp)
 {
@@ -404,9 +442,18 @@ static size_t v_fwrite(const void *p, size_t sz, size_t n, FILE *fp)
 	V_ASSERT(s->used && s->writing && sz == 1, "env: fwrite on a stream open for writing, item size 1");
 	s->buffered += n;
 	s->total += n;
-	/* the only fwrite in the code under test copies what the preceding fread returned */
-	V_ASSERT(gfs_copy_src >= 0, "env: fwrite of data that was read from a file");
-	s->copying = 1; s->copy_src = gfs_copy_src;
+	int reader_open = 0;
+	for (int i = 0; i < 3; i++) if (gfs_s[i].used && !gfs_s[i].writing) reader_open = 1;
+	if (reader_open) {
+		/* a copy loop: what the preceding fread returned */
+		V_ASSERT(gfs_copy_src >= 0, "env: fwrite of data that was read from a file");
+		s->copying = 1; s->copy_src = gfs_copy_src;
+	} else {
+		/* application data handed to stdio: events of the stream.  fwrite returning is all the caller sees, so
+		 * these bytes count as flushed by the runtime although they may still sit in the user-space buffer */
+		V_ASSERT(s->file == F_OBS || s->file == T_OBS, "env: fwrite of application data goes to the stream");
+		gfs_flushed += n;
+	}
 	int now = 0;
 	if (gfs_nchoice < GFS_NCHOICE) now = GFS_DRAIN_NOW(gfs_in()->flush_now[gfs_nchoice++]);
 	if (now) { if (gfs_drain(s) != 0) { gfs_after_write(s); return 0; } }
@@ -645,7 +692,7 @@ static JSON_Array *gv_array(const JSON_Value *v) { return (JSON_Array *) v; }
 static JSON_Object *gv_object(const JSON_Value *v) { return (JSON_Object *) v; }
 static JSON_Status gv_set_number(JSON_Object *o, const char *k, double n) { (void) o; (void) k; (void) n; return JSONSuccess; }
 static JSON_Status gv_array_append(JSON_Array *a, JSON_Value *v) { (void) a; (void) v; return JSONSuccess; }
-static char gfs_serbuf[4] = "{}";
+static char gfs_serbuf[GFS_JSON_LEN + 1] = "{                              }";   /* GFS_JSON_LEN characters */
 static char *gv_serialize_to_string_pretty(const JSON_Value *v)
 {
 	(void) v;
@@ -661,6 +708,7 @@ static void gv_free_serialized_string(char *s) { (void) s; }
 #define open(p, f, m) v_open(p, f, m)
 #define write(fd, b, n) v_write(fd, b, n)
 #define close(fd) v_close(fd)
+#define fsync(fd) v_fsync(fd)
 #define fopen(p, m) v_fopen(p, m)
 #define fwrite(p, s, n, f) v_fwrite(p, s, n, f)
 #define fputs(s, f) v_fputs(s, f)
